@@ -272,7 +272,9 @@ def run_repeat(spec):
     first = {}
     nonempty = 0
     for qi, q in enumerate(pool):
-        fdir = os.path.join(case_dir, 'fresh%d' % qi)
+        # (a directory of its own beside the case directory, never inside it: file-name
+        # completion lists the buffer's directory, which must look the same for both Scripts)
+        fdir = os.path.join(run_dir, 'c16-%s-fresh%d' % (spec['id'], qi))
         os.makedirs(fdir, exist_ok=True)
         fs = jedi.Script(text, path=os.path.join(fdir, 'buf.py'))
         ans = norm.run_query(fs, q[0], q[1], q[2], [('<case>', fdir)])
